@@ -13,6 +13,7 @@ import GeoVerif.Driver.UiFile
 import GeoVerif.Driver.Depths
 import GeoVerif.Driver.Records
 import GeoVerif.Driver.Heap
+import GeoVerif.Driver.AttrW
 open Lean GeoVerif.Driver
 
 structure DSt where
@@ -40,6 +41,7 @@ def stepLine (st : DSt) (line : String) : DSt × String :=
     | "uifile" => (st, (UiFileD.handle j).compress)
     | "depths" => (st, (DepthsD.handle j).compress)
     | "heap" => (st, (HeapD.handle j).compress)
+    | "attrw" => (st, (AttrWD.handle j).compress)
     | "records" => let (s, o) := RecordsD.handle st.recs j; ({ st with recs := s }, o.compress)
     | "life" => let (s, o) := LifeD.handle st.life j; ({ st with life := s }, o.compress)
     | _ => (st, "\"bad-model\"")
